@@ -142,7 +142,7 @@ def main():
     R = vp.Result("C12")
     R.assumptions = [
         "SHA-256 (the 64-byte compression of the SSZ tree) is collision-free: premise `collision_free H` of every tamper-evidence theorem (shown satisfiable in the model); the collision lemmas hold for every H",
-        "domain premise `dom`: a byte field that ssz.go hashes with a bare PutBytes has the size its ssz struct tag declares (v1.11 definition.config_hash = 32 via VerifyHashes; lock builder_registration.message.fee_recipient = 20: NOT enforced by the code, finding registration-fee-recipient-padding; v1.3/v1.4 fork_version, addresses, lock public keys), list lengths < 2^64; `fields` observes fixed-size byte fields left-padded (putBytesN hashes leftPad(b,n)) and addresses as their 20 decoded bytes",
+        "domain premise `dom`: a byte field that ssz.go hashes with a bare PutBytes has the size its ssz struct tag declares (v1.11 definition.config_hash = 32 via VerifyHashes; lock builder_registration.message.fee_recipient = 20 via verifyBuilderRegistrations since fix F14; v1.3/v1.4 fork_version, addresses, lock public keys), list lengths < 2^64; `fields` observes fixed-size byte fields left-padded (putBytesN hashes leftPad(b,n)) and addresses as their 20 decoded bytes",
         "the Go helpers putByteList/putBytesN/putHexBytes20/putK1SigList/leftPad/to0xHex/from0xHex/isAnyVersion/LegacyValidatorAddresses and fastssz hasher.go have hand-written Coq counterparts; the translator pins their source by digest and fails on any change; translation validation checks them on every run",
         "JSON codecs, EIP-712 / secp256k1 recovery, BLS verification, keystore encryption (insecure test cost) are exercised by the harness only, not modelled; lock_consistent is over an abstract field/vector space (Tbls/Shamir.v), the identification with BLS12-381 is by the C08 correspondence",
     ]
